@@ -475,6 +475,7 @@ func scenarios(tier string) []hx.Scenario {
 			}
 		}
 	}
+	scen = append(scen, frontEndScenario())
 	return scen
 }
 
